@@ -10,8 +10,8 @@ FIX_COMMITS = ["6e0caa7", "2840cea", "9555ff6", "6248959", "f561aed", "90dd435",
 # id -> (technique, level text, level note, design ref)
 CHECKS = {
  "C01": ("deviation-bounded exhaustive exploration of the signer's environment answers (forced sampler outcomes at chosen iterations, <= 2 deviations; all (i,j) forced retries of both rejection loops) plus exhaustive call-level histories/interleavings over messages, variants, shared keys and threads on real OS threads",
-         "Stateless exploration of the real sign under a role-aware RNG environment: every set of <= 2 deviations from an honest ChaCha stream over 6 positions x 8 forced answers, all forced-retry pairs with i+j <= 3, every (key, message, stream) cell, all depth-2 (thorough 3) same-thread histories over message lengths x variants, all 30 interleavings of three thread programs sharing keys; each signature checked by the real verify AND the reference Algorithm 16. The default run is replayed and must repeat byte for byte.",
-         "Seeds/messages/streams outside the alphabet are not covered. Intra-call preemption only through a free-running (non-exhaustive, labelled) part and the absence of shared mutable state (E5).", "3/C01"),
+         "Stateless exploration of the real sign under a role-aware RNG environment: every set of <= 2 deviations from an honest ChaCha stream over 6 positions x 8 forced answers, all forced-retry pairs with i+j <= 3, every (key, message, stream) cell, all depth-2 (thorough 3) same-thread histories over message lengths x variants, all 30 call-level interleavings of three thread programs sharing keys, a fresh-process history differential, and E5: every schedule with <= 2 (thorough 3) preemptions of three threads signing inside an instrumented copy under a controlled scheduler; each signature checked by the real verify AND the reference Algorithm 16. The default run is replayed and must repeat byte for byte.",
+         "Seeds/messages/streams outside the alphabet are not covered. Intra-call preemption is explored by E5 for three programs up to the preemption bound (shuttle engine: all atomics SeqCst); beyond that only a free-running, labelled, non-exhaustive part.", "3/C01"),
  "C02": ("exhaustive enumeration of engineered (msg, signature, public key) triples with prescribed squared norm (bound-1/bound/bound+1/far/wrap sizes), centred-range edge entries and malformed encodings, each through the real verify and a schoolbook Algorithm 16 (plus PQClean)",
          "Bounded exhaustive over a product alphabet of triples aimed at the glue of verify (centred lift, bound constant, comparison operator, accumulator width, decoder verdict), each compared with the reference Algorithm 16; components (hash, decoder, NTT pipeline, Z_q gates) are decided for all inputs by C14/C07/C11/C12.",
          "Compositional: relies on C07, C11, C12, C14 for the components. Reference verify is schoolbook; PQClean's verifier is a third source on the common domain.", "3/C02"),
@@ -19,7 +19,7 @@ CHECKS = {
          "Bounded exhaustive exploration of the real code: every length x header x 6 body patterns for all six decoders, every value of selected key fields, and every (alignment, distance-to-end, last/non-last, tail) configuration of the signature decoder at production size, each execution required not to unwind. Complete for the length/header guards and for the decoder's buffer-end automaton; bounded for bodies.",
          "Assumes the decoder's behaviour on a coefficient depends only on cursor alignment, bits left, last/non-last and the local window (argued from the code). Build: opt-level 3 with overflow-checks and debug-assertions on.", "3/C03"),
  "C04": ("enumeration of a seed window x both variants through the real keygen with exact integer oracles (NTRU equation, invertibility, public key) and a dense Gram-Schmidt reference for the tree leaves",
-         "Bounded exhaustive over an enumerated seed window (plus the seeds that exercise key generation's rejection branches): f*G-g*F = q exactly over Z, f invertible mod q at all n roots, h*f = g mod q for the encoded key, encoded polynomials equal the signing basis, every leaf in [sigma_min, sigma_max]; on a subset of keys the leaves equal sigma/||b~_k|| of an independent dense 2n x 2n Gram-Schmidt.",
+         "Bounded exhaustive over an enumerated seed window (plus the seeds that exercise key generation's rejection branches): f*G-g*F = q exactly over Z, f invertible mod q at all n roots, h*f = g mod q for the encoded key, encoded polynomials equal the signing basis, every leaf in [sigma_min, sigma_max]; on a subset of keys the leaves equal sigma/||b~_k|| of an independent dense 2n x 2n Gram-Schmidt; seeds are steered to the rejection branches of key generation; a fresh-process history differential checks that keys and trees do not depend on what ran before.",
          "Seeds outside the window are not covered. Dense Gram-Schmidt in f64 (tolerance 1e-9, observed 1e-14).", "3/C04"),
  "C05": ("exhaustive per-field codec enumeration (all representable values of every field position class) plus enumeration of a seed window x messages x signer environments with round-trip and sign-after-decode oracles",
          "Codec bijectivity is complete per field (data-independent loops); key generation is covered on an enumerated seed window that contains the seeds on which keys were found to leave the encodable range; every key's representability is read through the hook.",
@@ -28,19 +28,19 @@ CHECKS = {
          "Complete per field: acceptance sets are products of independent fields, every field's acceptance set is enumerated completely at 4 positions and at its edges everywhere; all 256 headers x all lengths (thorough) for every decoder.",
          "Reference framing from the specification (validated against PQClean decoders at setup). Secret keys whose f is not invertible are outside what the property lists and only checked for canonical re-encoding.", "3/C06"),
  "C07": ("exhaustive enumeration of all byte strings <= 3 bytes (n <= 3) plus end-of-buffer windows and run-length tokens at production size, each compared with a bit-level reference codec",
-         "Small-scope complete model check of compress/decompress against bit-level Algorithms 17/18 (50.5M strings, every one compared), an encoder alphabet with every budget, and complete enumeration of buffer-end windows and unary-run boundaries at n = 512/1024.",
+         "Small-scope complete model check of compress/decompress against bit-level Algorithms 17/18 (50.5M strings quick, 12.9G strings thorough, every one compared), an encoder alphabet with every budget, complete enumeration of buffer-end windows and unary-run boundaries at n = 512/1024, and all ordered pairs of calls over a call alphabet on one thread (state carried between calls).",
          "Reference codec is our own transcription of Algorithms 17/18 (validated against PQClean comp_encode/comp_decode at setup). Transfer from small scope to production size rests on the branch structure of the codec (cursor mod 8, bits left, last/non-last, run length).", "3/C07"),
- "C08": ("exhaustive enumeration of all sign-call histories up to depth 3 (thorough 4) over keys x messages x {two long-lived threads, fresh threads}, executed one call at a time on real OS threads with the production RNG, plus child processes; salts compared across the whole run",
+ "C08": ("exhaustive enumeration of all sign-call histories up to depth 3 (thorough 4) over keys x messages x {two long-lived threads, fresh threads}, executed one call at a time on real OS threads with the production RNG, plus child processes; salts compared across the whole run; E5: all schedules with <= 2 (thorough 3) preemptions of three concurrent signers in an instrumented copy",
          "History model checking at call granularity: every sequence of (operation, thread) up to the depth bound is executed against the real signer; after every call the new salt must differ from all salts seen (same thread, other thread, fresh thread, other process) and repeated (key,message) must give different signatures; no salt byte position is constant.",
-         "Salt values are not owned by the harness (production RNG by necessity); verdict deterministic up to a 2^-100 event. Intra-call preemption not explored.", "3/C08"),
+         "Salt values are not owned by the harness (production RNG by necessity); verdict deterministic up to a 2^-100 event. Intra-call preemption explored by E5 up to the preemption bound for one three-thread program.", "3/C08"),
  "C09": ("exhaustive exploration of all per-iteration answer sequences (depth 2, thorough 3) of the real sampler under a role-aware byte environment against the specification's SamplerZ; threshold extraction by binary search on the real decision functions and exact assembly of the output law (probabilistic model checking)",
-         "Building blocks on generating sets (all RCDT thresholds from both sides, all u with <= 2 non-zero bytes, ApproxExp grid bit-exact, BerExp byte patterns at every first-difference position); every answer sequence up to the depth bound replayed against the reference; the exact output law from extracted thresholds within 2^-40 total variation of the ideal Gaussian on a (r, sigma') grid.",
+         "Building blocks on generating sets (all RCDT thresholds from both sides, all u with <= 2 non-zero bytes, ApproxExp grid bit-exact, BerExp byte patterns at every first-difference position); every answer sequence up to the depth bound and every rejection run of length <= 64 (thorough 256) replayed against the reference; the exact output law from extracted thresholds within 2^-40 total variation of the ideal Gaussian on a (r, sigma') grid.",
          "Uniformity of the random bytes is the premise. (mu, sigma') are gridded. FP evaluation order of x follows the reference C code; comparison bytes keep a 2^16 margin.", "3/C09"),
  "C10": ("per-execution trace conformance of ffSampling against a dense nearest-plane reference (exhaustive over all sampler-outcome sequences at n = 2 and 4; keys x messages x forced-answer sets at production size) plus tree-vs-Gram-Schmidt equality",
          "What enumeration can decide for a distributional property: invariants I1 (tree leaves = sigma/||b~_k|| for generated AND reloaded keys), I2 (every one of the 2n sampler calls of every signing attempt is centred at the dense nearest-plane centre, uses its leaf as width, returns the specification's SamplerZ output on the logged bytes, and the emitted vector is target - sum z_k b_k), I3 (norm bound). Together with C09 these imply the spherical Gaussian by the Klein/GPV theorem.",
          "The implication I1-I3 + C09 => distribution is a textbook theorem, not checked. The literal moment statement is not tested (sampling is outside this family).", "3/C10"),
  "C11": ("complete enumeration of tables and of all basis vectors / basis pairs for every n <= 1024 (generating set of a linear / bilinear circuit)",
-         "Complete: 2059 table equalities; ntt(X^i)[k] = omega_k^i for all i,k and every n; inverse round trip; all basis pairs (thorough: all 1.4M pairs) give +-X^(i+j). Linearity of the data-independent butterfly circuit extends this to all q^n inputs.",
+         "Complete: 2059 table equalities; ntt(X^i)[k] = omega_k^i for all i,k and every n; inverse round trip; all basis pairs (thorough: all 1.4M pairs) give +-X^(i+j). Linearity of the data-independent butterfly circuit extends this to all q^n inputs; extreme-value families (q-1 on every aligned block) against the defining sums exercise the exact-gates premise.",
          "Trusts: exact Z_q gates (C12, exhaustive); absence of data-dependent branches in the butterflies (read from the code; additionally probed on two-term and dense vectors against the schoolbook product).", "3/C11"),
  "C12": ("complete enumeration of all 12289^2 operand pairs, all residues and all 65536 i16 inputs against integer arithmetic",
          "Complete finite-domain check: every ordered pair for add/sub/mul/multiply, every residue for neg/inverse/balanced/value, every i16 for Felt::new, raw inner representation compared with i64 rem_euclid.",
@@ -51,14 +51,14 @@ CHECKS = {
  "C14": ("exhaustive enumeration of all strings of length <= 2 (thorough) and block-boundary lengths x 256 fill bytes against an independent Keccak + Algorithm 3, with forced hits on the rejection threshold",
          "Bounded exhaustive: every short string and every absorb-boundary length compared coefficient by coefficient with our own SHAKE-256 + Algorithm 3; the evidence counts how often chunks equal to 61444/61445/65535 and a rejection right before the last coefficient occurred (must be > 0).",
          "Own Keccak validated against PQClean fips202.c at setup. Longer messages covered only through SHAKE's block structure.", "3/C14"),
- "C15": ("exhaustive enumeration of histories around a keygen call: fresh child process after every prefix (depth 1, thorough 2) of other operations incl. the other variant, same/other/fresh thread, call-level interleavings of two thread programs; all 256 single-bit seed flips",
+ "C15": ("exhaustive enumeration of histories around a keygen call: fresh child process after every prefix (depth 1, thorough 2) of other operations incl. the other variant, same/other/fresh thread, call-level interleavings of two thread programs; seeds steered to the longest rejection runs; all 256 single-bit seed flips; E5: all schedules with <= 2 preemptions of keygen next to a signer",
          "History model checking with a differential oracle (state reached from the initial state vs state reached from elsewhere): the key bytes of keygen(seed) in every explored history equal those of a fresh process; every seed bit flip changes both secret and public key.",
-         "Seeds outside the enumerated ones not covered; the target seeds include one whose key has a large f/g coefficient (vacuity guard). Call-level interleavings only.", "3/C15"),
+         "Seeds outside the enumerated ones not covered; the target seeds include one whose key has a large f/g coefficient (vacuity guard). Call-level interleavings exhaustively; intra-call preemption through E5 up to the bound.", "3/C15"),
  "C16": ("enumeration of seeds x messages x four interop directions against the vendored reference implementation with deterministic randomness, including signer randomness searched so that HashToPoint meets its rejection threshold",
-         "Bounded exhaustive differential check: reference signs with our keys, we verify and it verifies under our key bytes; our signatures (reframed) verify in the reference; reference keys import and re-encode byte-identically, cross-signing both ways.",
+         "Bounded exhaustive differential check: reference signs with our keys, we verify and it verifies under our key bytes; our signatures (reframed) verify in the reference; reference keys import and re-encode byte-identically, cross-signing both ways; engineered signatures with coefficients up to 2047 encoded by the reference compressor.",
          "Reference = PQClean clean implementation vendored from the cargo registry, linked with our deterministic randombytes. Bounded seeds/messages.", "3/C16"),
  "C17": ("exhaustive enumeration of a multiplier alphabet k applied to real (ntru_gen) and structured (f,g,F0,G0) for every n in {2..1024}, both reductions run on each input and compared, exact integer oracles",
-         "Bounded exhaustive: for each base quadruple every k in the alphabet; oracles: i32 and big-integer versions identical, f*G'-g*F' preserved exactly (i128), idempotence, exact multiple-of-(f,g) certificate; degenerate inputs (0,0), (1,0), already reduced.",
+         "Bounded exhaustive: for each base quadruple every k in the alphabet; oracles: i32 and big-integer versions identical, f*G'-g*F' preserved exactly (i128), idempotence, exact multiple-of-(f,g) certificate; degenerate inputs (0,0), (1,0), already reduced; the 30-bit NTT checked as a component (roots, scaled basis incl. small negatives, x^j * f for all j).",
          "Inputs outside the alphabet are not covered; coefficients are kept below 2^24 as the property states.", "3/C17"),
 }
 
